@@ -195,8 +195,13 @@ def _create_files(  # noqa: C901, PLR0912, PLR0913
 def _delete_dirs(entries, path, fs):
     # remove nested directories before their parents
     for entry in sorted(entries, key=lambda entry: len(entry.key), reverse=True):
+        dir_path = fs.join(path, *entry.key)
         try:
-            fs.rmdir(fs.join(path, *entry.key))
+            if isinstance(fs, LocalFileSystem) and os.path.islink(dir_path):
+                # a link to a directory: remove the link, not what it points to
+                os.unlink(dir_path)
+            else:
+                fs.rmdir(dir_path)
         except OSError:
             pass
 
